@@ -297,12 +297,13 @@ Qed.
 (* ================================================================================================ *)
 Lemma ynode_eqb_eq a : forall b, ynode_eqb a b = true -> a = b.
 Proof.
-  induction a as [x|x|x|d|b0|l IH|kv IH] using ynode_ind'; intros b H; destruct b; try discriminate H; cbn [ynode_eqb] in H.
+  induction a as [x|x|x|d|b0| |l IH|kv IH] using ynode_ind'; intros b H; destruct b; try discriminate H; cbn [ynode_eqb] in H.
   - apply str_eqb_eq in H. now subst.
   - apply str_eqb_eq in H. now subst.
   - apply str_eqb_eq in H. now subst.
   - apply andb_prop in H as [H1 H2]. apply Z.eqb_eq in H1, H2. destruct d, d0. cbn in *. now subst.
   - apply Bool.eqb_prop in H. now subst.
+  - reflexivity.
   - f_equal. revert l0 H. induction l as [|a l IHl]; intros [|b l0] H; try discriminate H; [reflexivity|].
     inversion IH as [|? ? Ha Hl]; subst. apply andb_prop in H as [H1 H2]. f_equal; [now apply Ha|now apply IHl].
   - f_equal. revert kv0 H. induction kv as [|[k a] kv IHl]; intros [|[k' b] kv0] H; try discriminate H; [reflexivity|].
